@@ -18,14 +18,15 @@ except ImportError:      # imported with tools/props on sys.path
 
 PROP = "C19"
 LEVEL = "proof"
-GEN_UNITS = ["GenUtils", "GenUtils2", "GenUtils3", "GenUtils3b"]
-COQ_TARGETS = ["Props/C19.vo", "Model/Harness.vo", "Props/W3C19.vo", "Props/W3C19b.vo"]
-THEOREM_FILES = ["Props/C19.v", "Props/W3C19.v", "Props/W3C19b.v"]
+GEN_UNITS = ["GenUtils", "GenUtils2", "GenUtils3", "GenUtils3b", "GenMethods3", "GenKtensor4"]
+COQ_TARGETS = ["Props/C19.vo", "Props/C19W4K.vo", "Model/Harness.vo", "Props/W3C19.vo", "Props/W3C19b.vo"]
+THEOREM_FILES = ["Props/C19.v", "Props/C19W4K.v", "Props/W3C19.v", "Props/W3C19b.v"]
 COQ_IMPORTS = ("From Coq Require Import List ZArith Bool.\n"
                "From PV Require Import Np.NpZ Np.NpZ2 Gen.GenUtils Gen.GenUtils2 Model.C19Guards.\nLocal Open Scope Z_scope.\n")
 RULE = ("malformed stream: per operation and per precondition, descriptors violating exactly that precondition over a pool of "
         "shapes (distinct sizes, cubical, singleton modes, 1-way, 2-way) incl. length-1 vectors, swapped matrix dims, short "
-        "factor lists, repeated/negative/out-of-range modes, non-permutations (too short, over-long with repeats that still mention "
+        "factor lists (the offending multiplicand / factor matrix / list entry first, in the middle and last: tags *_first/_mid/_last/_only; "
+        "wrong-size multiplicands under all four calling conventions of ttv/ttm), repeated/negative/out-of-range modes, non-permutations (too short, over-long with repeats that still mention "
         "every mode, shifted, negative, empty), size tuples rearranged or re-factored with the same product (ttv/ttm/mttkrp), "
         "wrong-count reshapes, inconsistent components, bad options; tensor.scale with mode lists in any order (factor sizes in ascending "
         "mode order = well-formed, in the caller's order of an unsorted list = ill-formed); linear indices on both sides of -prod(shape) and "
@@ -39,15 +40,18 @@ EXPLANATION = ("Theorems: for every covered operation guard_<op> (transliteratio
                "implicit checks and early returns included; mode selection is the tt_dimscheck regenerated from "
                "pyttb_utils.py on this run; linear indices go through the regenerated tt_ind2sub, matricisations through the regenerated "
                "gather_wrap_dims; the first step of every mttkrp is bridged to the regenerated get_mttkrp_factors) rejects exactly when pre_<op> fails (guard = decide pre, for all arguments); where the "
-               "code is still weaker (open / known findings A-28, C19-N11, C19-N18, C19-N20) the full statement is refuted by a witness "
-               "and the partial version is proved. "
+               "code is still weaker (known findings A-28, C19-N11, C19-N18) the full statement is refuted by a witness, "
+               "the partial version is proved and the answered set is characterised exactly (C19_tenmat_ctor_exact/_gap, "
+               "C19_from_aggregator_no_rows); the argument checks of sptensor.from_aggregator are the regenerated tt_subscheck / tt_valscheck / "
+               "tt_sizecheck and the mode check of ktensor.redistribute is proved over the regenerated method (C19_mode_redistribute_gen). "
                "Correspondence: pyttb vs guard_<op> and pre_<op> on the malformed stream (Rejected = any exception before a value is "
                "returned), receiver snapshot compared byte-for-byte; exactly one behaviour is accepted per request (inside the "
                "trigger of an open finding pyttb is compared with the precondition alone and the mismatch attributed).")
 CORRESPONDENCE_ONLY = sorted(n for n in O.OPS if n not in O.PROVED)
 ASSUMPTIONS = ["which exception type is raised is not part of the property and is not compared",
-               "guard_<op> is a hand transliteration of the checks (tied to the code by the correspondence stream only, "
-               "except tt_dimscheck which is translated from source)",
+               "guard_<op> is a hand transliteration of the checks (tied to the code by the correspondence stream only), except for the "
+               "helpers translated from source that the guards call or are bridged to: tt_dimscheck, gather_wrap_dims, tt_ind2sub, "
+               "tt_subscheck / tt_valscheck / tt_sizecheck (from_aggregator), get_mttkrp_factors, ktensor.redistribute",
                "values of operands are fixed small integers: rejection is assumed to depend on shapes/lengths/modes/options; "
                "memory layout, stored pattern (no entry / one / explicit zeros / reversed) and all-zero data are varied (operand kinds) "
                "and must not change the outcome",
